@@ -9,5 +9,6 @@ CONSTANTS
   NT <- NumText
   NTL <- NumTextLocBug
   CV <- Convert
+  RV <- ReadVec
 INVARIANTS LawDecLocShape
 CHECK_DEADLOCK FALSE
